@@ -32,7 +32,7 @@ from asynq import (
 )
 from asynq.futures import FutureBase
 
-from .prog import HErr, HBaseErr, tok, compile_prog
+from .prog import HErr, HBaseErr, HFalsyErr, tok, compile_prog
 
 class _Cur(threading.local):
     """the current world of this thread"""
@@ -183,6 +183,8 @@ class HBatch(BatchBase):
                     it.set_value(("i", it.lid))
                 elif it.mode == "err":
                     it.set_error(w.err(HErr, ("item", it.lid)))
+                elif it.mode == "errf":
+                    it.set_error(w.err(HFalsyErr, ("itemf", it.lid)))
             if mode == "setraise":
                 raise w.err(HErr, ("flushlate", self.kind))
         finally:
@@ -549,7 +551,11 @@ class World(object):
     def make_leaf(self, tc, lf, made):
         op = lf[0]
         if op == "c":
-            t = htask.asynq(lf[2])
+            if len(lf) > 3:
+                # the same child, reached through async_call on a make_async_decorator-wrapped function
+                t = async_call.asynq(hwrapped, lf[2])
+            else:
+                t = htask.asynq(lf[2])
             self.register_task(lf[2].tid, t)
             r = t
         elif op == "i":
@@ -613,6 +619,8 @@ class World(object):
             return DDHost.s, ("s", None)
         if fn == "sx":  # static method reached through an instance: same function, same key space
             return self.dd_hosts["x"].s, ("s", None)
+        if fn in ("p", "q"):  # two different functions with identical module and __name__
+            return (dd_p if fn == "p" else dd_q), (fn, None)
         if fn == "h":  # custom keygetter whose result depends on state that the body changes
             return dd_h, ("h", None)
         raise ValueError(fn)
@@ -1113,7 +1121,7 @@ def _block(w, tc, stmts, rec, made):
             raise ValueError(op)
 
 
-_DD_IDX = {("h", None): 5, ("f", None): 0, ("g", None): 1, ("m", "x"): 2, ("m", "y"): 3, ("s", None): 4}
+_DD_IDX = {("p", None): 6, ("q", None): 7, ("h", None): 5, ("f", None): 0, ("g", None): 1, ("m", "x"): 2, ("m", "y"): 3, ("s", None): 4}
 
 
 def _dd_body(fn, host, key):
@@ -1168,6 +1176,19 @@ def dd_g(key, mode=0):
     return (yield from _dd_body("g", None, key))
 
 
+def _dd_factory(tag):
+    @_tools.deduplicate()
+    @_asynq_deco()
+    def dd_same(key, mode=0):
+        return (yield from _dd_body(tag, None, key))
+
+    return dd_same
+
+
+dd_p = _dd_factory("p")
+dd_q = _dd_factory("q")
+
+
 def _dd_h_key(args, kwargs):
     return (args[0] if args else kwargs["key"], _cur.w.dd_rev)
 
@@ -1207,6 +1228,13 @@ def htask(tc):
     finally:
         w.body_exit(tc)
     return ("t", tc.tid, tuple(rec))
+
+
+def _hwrap(*args, **kwargs):
+    return htask.asynq(*args, **kwargs)
+
+
+hwrapped = asynq.make_async_decorator(htask, _hwrap, "hwrapped")
 
 
 @_asynq_deco()
